@@ -32,26 +32,26 @@ type deferred struct {
 }
 
 type Frame struct {
-	g        *Gen
-	fn       *ssa.Function
-	vals     map[ssa.Value]Val
-	parent   *Frame
-	depth    int
-	entry    *State
-	loops    map[*ssa.BasicBlock]*LoopInfo
-	closures map[ssa.Value]*closureInfo
-	defers   []deferred
-	rets     []retSite
-	contract *Contract
-	isTop    bool
-	freeVals map[*ssa.FreeVar]Val
-	headerSt map[*ssa.BasicBlock]*State
-	headerDec map[*ssa.BasicBlock]Term
-	debugVals map[types.Object][]ssa.Value
-	inlineArgs []Val
-	houdini  map[int][]*Clause // extra candidate invariants per loop ordinal (already proved)
+	g             *Gen
+	fn            *ssa.Function
+	vals          map[ssa.Value]Val
+	parent        *Frame
+	depth         int
+	entry         *State
+	loops         map[*ssa.BasicBlock]*LoopInfo
+	closures      map[ssa.Value]*closureInfo
+	defers        []deferred
+	rets          []retSite
+	contract      *Contract
+	isTop         bool
+	freeVals      map[*ssa.FreeVar]Val
+	headerSt      map[*ssa.BasicBlock]*State
+	headerDec     map[*ssa.BasicBlock]Term
+	debugVals     map[types.Object][]ssa.Value
+	inlineArgs    []Val
+	houdini       map[int][]*Clause // extra candidate invariants per loop ordinal (already proved)
 	paramClosures map[*ssa.Parameter]*closureInfo
-	curCallArgs []ssa.Value
+	curCallArgs   []ssa.Value
 }
 
 func (g *Gen) newFrame(fn *ssa.Function, parent *Frame) *Frame {
@@ -640,8 +640,36 @@ func (f *Frame) store(t *ssa.Store, st *State) {
 		}
 		g.frameStore(st, "*", p.Comps[0], intLit(cellSize(elemT)), t.Pos(), src)
 		g.storeVal(st, p.Comps[0], v)
+		if a, ok := t.Addr.(*ssa.Alloc); ok && isVariableCell(a) {
+			// a local variable's own cell (captured by closures): never an argument of a pure function
+			return
+		}
 	}
 	g.bumpTok(st)
+}
+
+// isVariableCell: an Alloc that only holds a source variable (address used by loads, stores, closure bindings).
+func isVariableCell(a *ssa.Alloc) bool {
+	if isAggregate(a.Type().(*types.Pointer).Elem()) {
+		return false
+	}
+	for _, r := range *a.Referrers() {
+		switch u := r.(type) {
+		case *ssa.DebugRef:
+		case *ssa.UnOp:
+			if u.Op != token.MUL {
+				return false
+			}
+		case *ssa.Store:
+			if u.Val == ssa.Value(a) {
+				return false
+			}
+		case *ssa.MakeClosure:
+		default:
+			return false
+		}
+	}
+	return true
 }
 
 func (f *Frame) nonNil(v ssa.Value) bool {
@@ -1125,6 +1153,17 @@ func (f *Frame) loopHeader(li *LoopInfo, st *State, phiEntry map[*ssa.Phi]Val) {
 		}
 	}
 	for p := range phiEntry {
+		invariant := true
+		for i := range li.Header.Preds {
+			if li.BackPred[i] && p.Edges[i] != ssa.Value(p) {
+				invariant = false
+			}
+		}
+		if invariant {
+			// every back edge carries the phi itself: the value is fixed before the loop
+			f.vals[p] = phiEntry[p]
+			continue
+		}
 		v := g.freshVal("lp_"+p.Comment, p.Type())
 		g.assumeWF(st, v)
 		v.Typ = p.Type()
